@@ -27,6 +27,7 @@
 #include <sys/wait.h>
 #include <unistd.h>
 #include <errno.h>
+#include <stdarg.h>
 #include "CppUTest/TestTestingFixture.h"
 #include <fcntl.h>
 
@@ -181,6 +182,23 @@ extern "C" int __wrap_fputs(const char* s, FILE* f) {
     if (g_fileLayerActive && isSimFile(f)) { simFPuts(s, (PlatformSpecificFile)f); return 1; }
     return __real_fputs(s, f);
 }
+// ... and the other ways libc offers to write the same bytes (a platform layer may use any of them)
+static PlatformSpecificFile simTarget(FILE* f) { if (!g_fileLayerActive) return 0; if (f == stdout) return (PlatformSpecificFile)&simStdoutTag; return isSimFile(f) ? (PlatformSpecificFile)f : 0; }
+extern "C" size_t __real_fwrite(const void*, size_t, size_t, FILE*); extern "C" int __real_fputc(int, FILE*); extern "C" int __real_putc(int, FILE*); extern "C" int __real_putchar(int); extern "C" int __real_puts(const char*);
+extern "C" int __real_vfprintf(FILE*, const char*, va_list); extern "C" int __real_vprintf(const char*, va_list);
+extern "C" size_t __wrap_fwrite(const void* p, size_t sz, size_t n, FILE* f) { PlatformSpecificFile t = simTarget(f); if (!t) return __real_fwrite(p, sz, n, f); simFWrite((const char*)p, sz * n, t); return n; }
+extern "C" int __wrap_fputc(int c, FILE* f) { PlatformSpecificFile t = simTarget(f); if (!t) return __real_fputc(c, f); char ch = (char)c; simFWrite(&ch, 1, t); return (unsigned char)ch; }
+extern "C" int __wrap_putc(int c, FILE* f) { return __wrap_fputc(c, f); }
+extern "C" int __wrap_putchar(int c) { return __wrap_fputc(c, stdout); }
+extern "C" int __wrap_puts(const char* s) { PlatformSpecificFile t = simTarget(stdout); if (!t) return __real_puts(s); simFPuts(s, t); simFWrite("\n", 1, t); return 1; }
+extern "C" int __wrap_vfprintf(FILE* f, const char* fmt, va_list ap) {
+    PlatformSpecificFile t = simTarget(f); if (!t) return __real_vfprintf(f, fmt, ap);
+    va_list ap2; va_copy(ap2, ap); int n = vsnprintf(0, 0, fmt, ap2); va_end(ap2); if (n < 0) return n;
+    char* buf = (char*)::malloc((size_t)n + 1); vsnprintf(buf, (size_t)n + 1, fmt, ap); simFWrite(buf, (size_t)n, t); ::free(buf); return n;
+}
+extern "C" int __wrap_fprintf(FILE* f, const char* fmt, ...) { va_list ap; va_start(ap, fmt); int n = __wrap_vfprintf(f, fmt, ap); va_end(ap); return n; }
+extern "C" int __wrap_vprintf(const char* fmt, va_list ap) { return __wrap_vfprintf(stdout, fmt, ap); }
+extern "C" int __wrap_printf(const char* fmt, ...) { va_list ap; va_start(ap, fmt); int n = __wrap_vfprintf(stdout, fmt, ap); va_end(ap); return n; }
 extern "C" int __wrap_fclose(FILE* f) { if (g_fileLayerActive && isSimFile(f)) { simFClose((PlatformSpecificFile)f); return 0; } return __real_fclose(f); }
 extern "C" int __wrap_fflush(FILE* f) { if (g_fileLayerActive && f == stdout) { simFlush(); return 0; } return __real_fflush(f); }
 extern "C" pid_t __wrap_fork(void) { return PS.active ? (pid_t)simFork() : __real_fork(); }
